@@ -14,6 +14,7 @@ import (
 	"runtime/metrics"
 	"sort"
 	"strings"
+	"syscall"
 	"time"
 
 	"github.com/BlackVectorOps/semantic_firewall/v3/internal/cli"
@@ -188,6 +189,9 @@ func (c *childState) runCase(idx int, cs Case) {
 	switch cs.Kind {
 	case "size":
 		c.runSize(idx, cs)
+		return
+	case "size-stream":
+		c.runSizeStream(idx, cs)
 		return
 	}
 	src, err := os.ReadFile(cs.File)
@@ -389,6 +393,81 @@ func (c *childState) runSize(idx int, cs Case) {
 		c.progress(idx, "ComputeDiff "+fsys.name)
 		d, err := cli.ComputeDiff(fsys.fs, cs.Base, cs.File)
 		r := Rec{Case: cs.ID, Family: cs.Family, Kind: "size", Path: "ComputeDiff/" + fsys.name, FileSize: st.Size()}
+		if err != nil {
+			r.Err = err.Error()
+		}
+		if d != nil {
+			r.NumFuncs = len(d.Functions)
+		}
+		c.emit(r)
+	}
+}
+
+// runSizeStream offers the bytes of cs.File (more than the limit when Params[0] > limit)
+// through a named pipe called like a Go source file: os.Stat reports size 0 for it, so only
+// a limit on the bytes actually read protects the analysis. Only the real reader of the CLI
+// (cli.RealFileSystem) is exercised. A writer that nobody ever reads from gives up after the
+// call returns.
+func (c *childState) runSizeStream(idx int, cs Case) {
+	content, err := os.ReadFile(cs.File)
+	if err != nil {
+		c.emit(Rec{Case: cs.ID, Family: cs.Family, Kind: "size", Err: "read: " + err.Error()})
+		return
+	}
+	offer := func(tag string) (string, chan struct{}, chan int) {
+		dir := filepath.Join(filepath.Dir(cs.File), "fifo-"+tag)
+		os.MkdirAll(dir, 0o755)
+		os.WriteFile(filepath.Join(dir, "go.mod"), []byte("module example.com/stream\n\ngo 1.24\n"), 0o644)
+		fifo := filepath.Join(dir, "stream.go")
+		os.Remove(fifo)
+		if err := syscall.Mkfifo(fifo, 0o644); err != nil {
+			return "", nil, nil
+		}
+		stop, wrote := make(chan struct{}), make(chan int, 1)
+		go func() {
+			n := 0
+			defer func() { wrote <- n }()
+			for {
+				select {
+				case <-stop:
+					return
+				default:
+				}
+				fd, err := syscall.Open(fifo, syscall.O_WRONLY|syscall.O_NONBLOCK, 0)
+				if err != nil { // ENXIO: no reader yet
+					time.Sleep(2 * time.Millisecond)
+					continue
+				}
+				syscall.SetNonblock(fd, false)
+				f := os.NewFile(uintptr(fd), fifo)
+				n, _ = f.Write(content)
+				f.Close()
+				return
+			}
+		}()
+		return fifo, stop, wrote
+	}
+	finish := func(stop chan struct{}, wrote chan int) int {
+		close(stop)
+		select {
+		case n := <-wrote:
+			return n
+		case <-time.After(5 * time.Second):
+			return -1
+		}
+	}
+	if fifo, stop, wrote := offer("pf"); fifo != "" {
+		c.progress(idx, "ProcessFile realfs fifo")
+		out := cli.ProcessFile(cli.RealFileSystem{}, fifo, false, nil)
+		n := finish(stop, wrote)
+		c.emit(Rec{Case: cs.ID, Family: cs.Family, Kind: "size", Path: "ProcessFile/realfs/fifo", FileSize: int64(len(content)),
+			Err: out.ErrorMessage, NumFuncs: len(out.Functions), Uses: n})
+	}
+	if fifo, stop, wrote := offer("cd"); fifo != "" {
+		c.progress(idx, "ComputeDiff realfs fifo")
+		d, err := cli.ComputeDiff(cli.RealFileSystem{}, cs.Base, fifo)
+		n := finish(stop, wrote)
+		r := Rec{Case: cs.ID, Family: cs.Family, Kind: "size", Path: "ComputeDiff/realfs/fifo", FileSize: int64(len(content)), Uses: n}
 		if err != nil {
 			r.Err = err.Error()
 		}
